@@ -149,6 +149,10 @@ def gen_source(rnd, size_class, allow_empty, allow_extreme=True):
         spec["nb_easy_neg"] = rnd.randint(0, max(1, int(mult * max(nneg, 1))))
         if rnd.random() < 0.3:
             spec[rnd.choice(["nb_easy_pos", "nb_easy_neg"])] = 0
+    if rnd.random() < 0.15:
+        # the same values handed over in another legal container (list / tuple / non-contiguous or negative-stride view /
+        # pandas Series with a shuffled non-default index)
+        spec["container"] = rnd.choice(["list", "tuple", "strided", "negstride", "series", "series"])
     return spec
 
 
